@@ -38,7 +38,7 @@ const (
 var traceIDs = []string{"A", "B"}
 
 // span "A2" = trace A, number 2.  Timestamps are distinct; B lies 30 min after A so that a clock exists for which A is
-// mature and B is not.  Secondary-index keys of A and B interleave.
+// mature and B is not.  Secondary-index keys of A and B interleave (11 12 .. 31 32) and collide once (A2 and B2: 20).
 func spanDef(name string) trace.C13Span {
 	tr := name[:1]
 	n := int64(name[1] - '0')
@@ -47,6 +47,9 @@ func spanDef(name string) trace.C13Span {
 	if tr == "B" {
 		ts += 30 * int64(time.Minute)
 		k = n*10 + 2
+	}
+	if n == 2 {
+		k = 20
 	}
 	return trace.C13Span{Trace: tr, ID: name, TS: ts, Key: k}
 }
@@ -224,6 +227,8 @@ type obs struct {
 	Visible  map[string][]string `json:"visible"` // trace -> span ids as returned by the query path, sorted
 	Corrupt  []string            `json:"corrupt,omitempty"`
 	Sidx     map[string][]int64  `json:"sidx"` // trace -> keys (sorted, with multiplicity)
+	Ordered  map[string][]string `json:"ordered"` // trace -> span ids returned by the ordered (sidx-driven) query, sorted
+	OrdSeq   []string            `json:"ord_seq"` // trace ids in the order the ordered query produced them
 	SidxBad  []string            `json:"sidx_bad,omitempty"`
 	Parts    []partObs           `json:"parts"`
 	TableGen uint64              `json:"table_gen"`
@@ -244,6 +249,13 @@ func observe(tb *trace.C13Table) (*obs, error) {
 			}
 		}
 		sort.Strings(o.Visible[t])
+	}
+	o.OrdSeq, o.Ordered, err = tb.QueryOrdered()
+	if err != nil {
+		return nil, fmt.Errorf("ordered query: %w", err)
+	}
+	for t := range o.Ordered {
+		sort.Strings(o.Ordered[t])
 	}
 	rows, err := tb.SidxScan()
 	if err != nil {
@@ -419,7 +431,7 @@ func apply(tb *trace.C13Table, smp *sampler, op Op, cur *obs) (stepInfo, error) 
 			smp.hook = nil
 		}
 	}
-	rej0, intro0 := tb.Rejected, tb.Introduced
+	intro0, rej0 := tb.Counters()
 	switch op.K {
 	case "W":
 		tb.Write(toSpans(op.Batch))
@@ -465,7 +477,8 @@ func apply(tb *trace.C13Table, smp *sampler, op Op, cur *obs) (stepInfo, error) 
 		return si, fmt.Errorf("unknown op %q", op.K)
 	}
 	if op.K == "MM" || op.K == "M" || op.K == "FIN" {
-		si.outcome += fmt.Sprintf(" introduced=%d rejected=%d", tb.Introduced-intro0, tb.Rejected-rej0)
+		intro1, rej1 := tb.Counters()
+		si.outcome += fmt.Sprintf(" introduced=%d rejected=%d", intro1-intro0, rej1-rej0)
 		if op.Mid != "" {
 			si.outcome += fmt.Sprintf(" %s-fired=%v", op.Mid, si.midFired)
 		}
@@ -602,6 +615,17 @@ func checkStep(c Cfg, op Op, si stepInfo, m model, pre, post *obs, smp *sampler)
 				class = "sidx-lost-entries"
 			}
 			add(class, t, "", fmt.Sprintf("visible spans %v need sidx keys %v, sidx holds %v", nm.Expect[t], wantKeys, gotKeys))
+		}
+	}
+	// the ordered (secondary-index driven) query must return exactly the visible traces, each whole, once (its order is C09's business)
+	{
+		a, _ := json.Marshal(post.Visible)
+		b, _ := json.Marshal(post.Ordered)
+		if len(post.Visible) == 0 && len(post.Ordered) == 0 {
+			a, b = nil, nil
+		}
+		if string(a) != string(b) {
+			add("ordered-query-differs", "*", "", fmt.Sprintf("query by trace id returns %s, ordered query returns %s", a, b))
 		}
 	}
 	for t := range post.Visible {
